@@ -197,7 +197,9 @@ def do_check(mod: Any, prop: str, args: Any) -> int:
                 cur = violations.get(sig)
                 if cur is None or idx < cur[0]:
                     violations[sig] = (idx, v)
-        elif status == 'timeout' and not final:
+        elif status in ('timeout', 'died') and not final:
+            # under load a task may hit the wall-clock backstop (and a child can be lost to the OOM killer):
+            # that proves nothing - re-run it alone, generously, before judging
             retry.append(idx)
         elif status == 'timeout':
             v = mod.liveness_violation(tasks[idx], res) if hasattr(mod, 'liveness_violation') else None
